@@ -1527,3 +1527,1183 @@ void addImportFaults(std::vector<Fault> &cat)
     cat.back().probe = true; // which strings libxml2's xmlParseURI refuses is not a CellML rule: recorded, not judged
 }
 
+// ---------------------------------------------------------------- catalogue: MathML faults
+// gen(V, W, rng) -> raw XML replacing one sub-expression; V is a variable of the component, W another (or the same) one
+using XmlGen = std::function<std::string(const std::string &, const std::string &, Rng &)>;
+
+std::string ciX(const std::string &v)
+{
+    return "<ci>" + v + "</ci>";
+}
+
+std::string applyN(const std::string &op, int n, const std::string &v, const std::string &w)
+{
+    std::string s = "<apply><" + op + "/>";
+    for (int i = 0; i < n; ++i) {
+        s += ciX(i % 2 == 0 ? v : w);
+    }
+    return s + "</apply>";
+}
+
+void addMath(std::vector<Fault> &cat, const std::string &name, std::vector<Rule> adm, XmlGen gen, bool probe = false)
+{
+    Fault f;
+    f.name = name;
+    f.adm = std::move(adm);
+    f.math = true;
+    f.probe = probe;
+    f.tune = wantMath;
+    f.locs = [gen](const IrModel &m, Rng &rng) {
+        std::vector<Loc> out;
+        for (const auto &s : collectSites(m)) {
+            const auto &vars = m.comps[static_cast<size_t>(s.comp)].vars;
+            std::string v = vars[rng.below(vars.size())].name;
+            std::string w = vars[rng.below(vars.size())].name;
+            Loc l;
+            l.cls = siteClass(m, s);
+            l.rawXml = gen(v, w, rng);
+            l.what = "sub-expression replaced by " + l.rawXml;
+            MathSite site = s;
+            l.ir = [site](IrModel &f) { *siteNode(f, site) = mkCi(kMarker); };
+            out.push_back(l);
+        }
+        return out;
+    };
+    cat.push_back(f);
+}
+
+void addMathFaults(std::vector<Fault> &cat)
+{
+    static const std::vector<std::string> unsupportedOps = {"sum", "factorial", "quotient", "gcd", "lcm", "conjugate", "arg", "real", "imaginary", "int", "partialdiff", "divergence", "grad", "curl",
+                                                            "laplacian", "union", "intersect", "implies", "approx", "factorof", "equivalent", "mean", "sdev", "variance", "median", "mode", "determinant",
+                                                            "transpose", "product", "compose", "inverse", "forall", "exists", "limit", "card", "setdiff", "cartesianproduct", "vectorproduct", "scalarproduct"};
+    addMath(cat, "math:unsupported-operator", {Rule::MATH_CHILD}, [](const std::string &v, const std::string &w, Rng &rng) { return applyN(rng.pick(unsupportedOps), rng.range(1, 2), v, w); });
+    addMath(cat, "math:unsupported-container", {Rule::MATH_CHILD}, [](const std::string &v, const std::string &w, Rng &rng) {
+        std::string e = rng.pick(std::vector<std::string> {"vector", "set", "list", "matrixrow", "interval"});
+        return "<" + e + ">" + ciX(v) + ciX(w) + "</" + e + ">";
+    });
+    addMath(cat, "math:unsupported-constant", {Rule::MATH_CHILD}, [](const std::string &, const std::string &, Rng &rng) {
+        return "<" + rng.pick(std::vector<std::string> {"integers", "reals", "rationals", "naturalnumbers", "complexes", "primes", "emptyset", "eulergamma", "imaginaryi"}) + "/>";
+    });
+    addMath(cat, "math:unsupported-csymbol-or-semantics", {Rule::MATH_CHILD}, [](const std::string &v, const std::string &, Rng &rng) {
+        return rng.chance(0.5) ? "<csymbol encoding=\"text\" definitionURL=\"http://example.org/f\">f</csymbol>" : "<semantics>" + ciX(v) + "</semantics>";
+    });
+    addMath(cat, "math:presentation-element", {Rule::MATH_CHILD}, [](const std::string &v, const std::string &, Rng &rng) {
+        return rng.chance(0.5) ? "<mi>" + v + "</mi>" : "<mrow><mi>" + v + "</mi><mo>+</mo><mn>1</mn></mrow>";
+    });
+    addMath(cat, "math:unknown-element", {Rule::MATH_CHILD, Rule::MATH_MATHML}, [](const std::string &v, const std::string &, Rng &rng) {
+        return rng.chance(0.5) ? std::string("<foo/>") : "<apply><frobnicate/>" + ciX(v) + "</apply>";
+    });
+    addMath(cat, "math:element-in-foreign-namespace", {Rule::MATH_CHILD, Rule::MATH_MATHML}, [](const std::string &v, const std::string &w, Rng &) {
+        return "<apply><plus xmlns=\"http://example.org/not-mathml\"/>" + ciX(v) + ciX(w) + "</apply>";
+    });
+
+    struct Group
+    {
+        const char *name;
+        std::vector<std::string> ops;
+        std::vector<int> bad;
+        int good;
+    };
+    static const std::vector<Group> groups = {
+        {"relational", {"eq", "neq", "lt", "leq", "gt", "geq"}, {0, 1, 3}, 2},
+        {"and-or-xor", {"and", "or", "xor"}, {0, 1}, 2},
+        {"not", {"not"}, {0, 2}, 1},
+        {"plus", {"plus"}, {0}, 2},
+        {"minus", {"minus"}, {0, 3}, 2},
+        {"times", {"times"}, {0, 1}, 2},
+        {"divide", {"divide"}, {0, 1, 3}, 2},
+        {"power", {"power"}, {0, 1, 3}, 2},
+        {"root", {"root"}, {0, 3}, 1},
+        {"abs-exp-ln", {"abs", "exp", "ln"}, {0, 2}, 1},
+        {"log", {"log"}, {0, 3}, 1},
+        {"ceiling-floor", {"ceiling", "floor"}, {0, 2}, 1},
+        {"trig", {"sin", "cos", "tan", "sec", "csc", "cot", "sinh", "cosh", "tanh", "sech", "csch", "coth", "arcsin", "arccos", "arctan", "arcsec", "arccsc", "arccot", "arcsinh", "arccosh", "arctanh", "arcsech", "arccsch", "arccoth"}, {0, 2}, 1}};
+    for (const auto &g : groups) {
+        for (int n : g.bad) {
+            auto ops = g.ops;
+            addMath(cat, std::string("math:arity:") + g.name + ":" + std::to_string(n), {Rule::MATH_MATHML}, [ops, n](const std::string &v, const std::string &w, Rng &rng) { return applyN(rng.pick(ops), n, v, w); });
+        }
+        auto ops = g.ops;
+        int good = g.good;
+        addMath(cat, std::string("math:operator-not-first:") + g.name, {Rule::MATH_MATHML}, [ops, good](const std::string &v, const std::string &w, Rng &rng) {
+            std::string s = "<apply>" + ciX(v) + "<" + rng.pick(ops) + "/>";
+            for (int i = 1; i < good; ++i) {
+                s += ciX(w);
+            }
+            return s + "</apply>";
+        });
+    }
+    const std::string cn1 = "<cn cellml:units=\"dimensionless\">2</cn>";
+    addMath(cat, "math:root-two-operands-no-degree", {Rule::MATH_MATHML}, [](const std::string &v, const std::string &w, Rng &) { return applyN("root", 2, v, w); });
+    addMath(cat, "math:log-two-operands-no-logbase", {Rule::MATH_MATHML}, [](const std::string &v, const std::string &w, Rng &) { return applyN("log", 2, v, w); });
+    addMath(cat, "math:degree-children:0", {Rule::MATH_MATHML}, [](const std::string &v, const std::string &, Rng &) { return "<apply><root/><degree/>" + ciX(v) + "</apply>"; });
+    addMath(cat, "math:degree-children:2", {Rule::MATH_MATHML}, [=](const std::string &v, const std::string &w, Rng &) { return "<apply><root/><degree>" + cn1 + ciX(w) + "</degree>" + ciX(v) + "</apply>"; });
+    addMath(cat, "math:degree-not-second", {Rule::MATH_MATHML}, [=](const std::string &v, const std::string &, Rng &) { return "<apply><root/>" + ciX(v) + "<degree>" + cn1 + "</degree></apply>"; });
+    addMath(cat, "math:degree-with-wrong-operator", {Rule::MATH_MATHML}, [=](const std::string &v, const std::string &, Rng &) { return "<apply><exp/><degree>" + cn1 + "</degree>" + ciX(v) + "</apply>"; });
+    addMath(cat, "math:logbase-children:0", {Rule::MATH_MATHML}, [](const std::string &v, const std::string &, Rng &) { return "<apply><log/><logbase/>" + ciX(v) + "</apply>"; });
+    addMath(cat, "math:logbase-children:2", {Rule::MATH_MATHML}, [=](const std::string &v, const std::string &w, Rng &) { return "<apply><log/><logbase>" + cn1 + ciX(w) + "</logbase>" + ciX(v) + "</apply>"; });
+    addMath(cat, "math:logbase-not-second", {Rule::MATH_MATHML}, [=](const std::string &v, const std::string &, Rng &) { return "<apply><log/>" + ciX(v) + "<logbase>" + cn1 + "</logbase></apply>"; });
+    addMath(cat, "math:logbase-with-wrong-operator", {Rule::MATH_MATHML}, [=](const std::string &v, const std::string &, Rng &) { return "<apply><ln/><logbase>" + cn1 + "</logbase>" + ciX(v) + "</apply>"; });
+    addMath(cat, "math:diff-no-bvar", {Rule::MATH_MATHML}, [](const std::string &v, const std::string &w, Rng &rng) { return applyN("diff", rng.range(1, 2), v, w); });
+    addMath(cat, "math:diff-no-operand", {Rule::MATH_MATHML}, [](const std::string &v, const std::string &, Rng &) { return "<apply><diff/><bvar>" + ciX(v) + "</bvar></apply>"; });
+    addMath(cat, "math:diff-two-operands", {Rule::MATH_MATHML}, [](const std::string &v, const std::string &w, Rng &) { return "<apply><diff/><bvar>" + ciX(v) + "</bvar>" + ciX(w) + ciX(v) + "</apply>"; });
+    addMath(cat, "math:diff-bvar-not-second", {Rule::MATH_MATHML}, [](const std::string &v, const std::string &w, Rng &) { return "<apply><diff/>" + ciX(w) + "<bvar>" + ciX(v) + "</bvar></apply>"; });
+    addMath(cat, "math:bvar-children:0", {Rule::MATH_MATHML}, [](const std::string &v, const std::string &, Rng &) { return "<apply><diff/><bvar/>" + ciX(v) + "</apply>"; });
+    addMath(cat, "math:bvar-children:3", {Rule::MATH_MATHML}, [=](const std::string &v, const std::string &w, Rng &) { return "<apply><diff/><bvar>" + ciX(v) + "<degree>" + cn1 + "</degree>" + ciX(w) + "</bvar>" + ciX(w) + "</apply>"; });
+    addMath(cat, "math:bvar-without-diff", {Rule::MATH_MATHML}, [](const std::string &v, const std::string &w, Rng &) { return "<apply><plus/><bvar>" + ciX(v) + "</bvar>" + ciX(w) + "</apply>"; });
+    addMath(cat, "math:piece-children:1", {Rule::MATH_MATHML}, [](const std::string &v, const std::string &w, Rng &) { return "<piecewise><piece>" + ciX(v) + "</piece><otherwise>" + ciX(w) + "</otherwise></piecewise>"; });
+    addMath(cat, "math:piece-children:3", {Rule::MATH_MATHML}, [](const std::string &v, const std::string &w, Rng &) { return "<piecewise><piece>" + ciX(v) + ciX(w) + ciX(v) + "</piece></piecewise>"; });
+    addMath(cat, "math:otherwise-children:0", {Rule::MATH_MATHML}, [](const std::string &v, const std::string &w, Rng &) { return "<piecewise><piece>" + ciX(v) + "<apply><gt/>" + ciX(w) + ciX(v) + "</apply></piece><otherwise/></piecewise>"; });
+    addMath(cat, "math:otherwise-children:2", {Rule::MATH_MATHML}, [](const std::string &v, const std::string &w, Rng &) { return "<piecewise><piece>" + ciX(v) + "<apply><gt/>" + ciX(w) + ciX(v) + "</apply></piece><otherwise>" + ciX(v) + ciX(w) + "</otherwise></piecewise>"; });
+    addMath(cat, "math:apply-empty", {Rule::MATH_MATHML}, [](const std::string &, const std::string &, Rng &) { return std::string("<apply/>"); });
+    addMath(cat, "math:text-in-apply", {Rule::MATH_MATHML}, [](const std::string &v, const std::string &w, Rng &) { return "<apply><plus/>stray text" + ciX(v) + ciX(w) + "</apply>"; });
+
+    // ---- cn
+    addMath(cat, "math:cn-no-units", {Rule::MATH_CN_UNITS_ATTRIBUTE}, [](const std::string &, const std::string &, Rng &rng) {
+        return rng.pick(std::vector<std::string> {"<cn>1</cn>", "<cn type=\"real\">2.5</cn>", "<cn type=\"e-notation\">1<sep/>3</cn>"});
+    });
+    addMath(cat, "math:cn-units-empty", {Rule::MATH_CN_UNITS_ATTRIBUTE, Rule::DATA_REPR_IDENTIFIER_AT_LEAST_ONE_ALPHANUM}, [](const std::string &, const std::string &, Rng &) { return std::string("<cn cellml:units=\"\">1</cn>"); });
+    addMath(cat, "math:cn-units-ident:digit", {Rule::MATH_CN_UNITS_ATTRIBUTE, Rule::DATA_REPR_IDENTIFIER_BEGIN_EURO_NUM}, [](const std::string &, const std::string &, Rng &rng) { return "<cn cellml:units=\"" + rng.pick(idKinds()[1].values) + "\">1</cn>"; });
+    addMath(cat, "math:cn-units-ident:char", {Rule::MATH_CN_UNITS_ATTRIBUTE, Rule::DATA_REPR_IDENTIFIER_LATIN_ALPHANUM}, [](const std::string &, const std::string &, Rng &rng) { return "<cn cellml:units=\"" + rng.pick(idKinds()[2].values) + "\">1</cn>"; });
+    addMath(cat, "math:cn-units-missing", {Rule::MATH_CN_UNITS_ATTRIBUTE_REFERENCE}, [](const std::string &, const std::string &, Rng &rng) {
+        return rng.chance(0.5) ? std::string("<cn cellml:units=\"c04_no_such_units\">1</cn>") : std::string("<cn cellml:units=\"c04_no_such_units\" type=\"e-notation\">1<sep/>3</cn>");
+    });
+    addMath(cat, "math:cn-base-not-10", {Rule::MATH_CN_BASE10}, [](const std::string &, const std::string &, Rng &rng) {
+        return "<cn cellml:units=\"dimensionless\" base=\"" + rng.pick(std::vector<std::string> {"16", "2", "8", "1", "010", "ten"}) + "\">11</cn>";
+    });
+    addMath(cat, "math:cn-type", {Rule::MATH_CN_FORMAT}, [](const std::string &, const std::string &, Rng &rng) {
+        return rng.pick(std::vector<std::string> {"<cn cellml:units=\"dimensionless\" type=\"integer\">1</cn>", "<cn cellml:units=\"dimensionless\" type=\"rational\">1<sep/>3</cn>",
+                                                  "<cn cellml:units=\"dimensionless\" type=\"complex-cartesian\">1<sep/>3</cn>", "<cn cellml:units=\"dimensionless\" type=\"complex-polar\">1<sep/>3</cn>",
+                                                  "<cn cellml:units=\"dimensionless\" type=\"constant\">1</cn>"});
+    });
+    addMath(cat, "math:cn-text-not-a-number", {Rule::MATH_CN_FORMAT}, [](const std::string &, const std::string &, Rng &rng) {
+        return "<cn cellml:units=\"dimensionless\"" + std::string(rng.chance(0.3) ? " type=\"real\"" : "") + ">" + rng.pick(std::vector<std::string> {"abc", "1e3", "1,5", "1 2", "0x10", "+1", "1.2.3", "--1", "one", "1E-2", "NaN"}) + "</cn>";
+    });
+    addMath(cat, "math:cn-text-empty", {Rule::MATH_CN_FORMAT}, [](const std::string &, const std::string &, Rng &rng) {
+        return rng.pick(std::vector<std::string> {"<cn cellml:units=\"dimensionless\"/>", "<cn cellml:units=\"dimensionless\"></cn>", "<cn cellml:units=\"dimensionless\">  </cn>"});
+    });
+    addMath(cat, "math:cn-text-degenerate-real", {Rule::MATH_CN_FORMAT}, [](const std::string &, const std::string &, Rng &rng) {
+        return "<cn cellml:units=\"dimensionless\">" + rng.pick(std::vector<std::string> {"-", ".", "-."}) + "</cn>";
+    });
+    addMath(cat, "math:cn-e-notation-malformed", {Rule::MATH_CN_FORMAT}, [](const std::string &, const std::string &, Rng &rng) {
+        return "<cn cellml:units=\"dimensionless\" type=\"e-notation\">" + rng.pick(std::vector<std::string> {"1", "1<sep/>", "<sep/>2", "1<sep/>1.5", "1<sep/>x", "a<sep/>2", "1<sep/>2<sep/>3", "1e2<sep/>3"}) + "</cn>";
+    });
+    addMath(cat, "math:cn-foreign-cellml-attribute", {Rule::MATH_MATHML}, [](const std::string &, const std::string &, Rng &) { return std::string("<cn cellml:units=\"dimensionless\" cellml:flavour=\"x\">1</cn>"); });
+    // ---- ci
+    addMath(cat, "math:ci-empty", {Rule::MATH_CI_VARIABLE_REFERENCE}, [](const std::string &, const std::string &, Rng &rng) { return rng.pick(std::vector<std::string> {"<ci/>", "<ci></ci>", "<ci>  </ci>"}); });
+    addMath(cat, "math:ci-missing-variable", {Rule::MATH_CI_VARIABLE_REFERENCE}, [](const std::string &v, const std::string &, Rng &rng) {
+        return rng.pick(std::vector<std::string> {"<ci>c04_no_such_variable</ci>", "<ci>" + v + "_x</ci>", "<apply><plus/><ci>" + v + "</ci><ci>c04_no_such_variable</ci></apply>"});
+    });
+    addMath(cat, "math:ci-cellml-attribute", {Rule::MATH_MATHML}, [](const std::string &v, const std::string &, Rng &) { return "<ci cellml:units=\"second\">" + v + "</ci>"; });
+}
+
+// ci naming a variable that exists only in another component, and whole-<math> faults (API only)
+void addMathSpecialFaults(std::vector<Fault> &cat)
+{
+    Fault f;
+    f.name = "math:ci-variable-of-other-component";
+    f.adm = {Rule::MATH_CI_VARIABLE_REFERENCE};
+    f.math = true;
+    f.tune = [](GenOptions &g) { wantMath(g); g.maxComponents = 7; };
+    f.locs = [](const IrModel &m, Rng &rng) {
+        std::vector<Loc> out;
+        for (const auto &s : collectSites(m)) {
+            const auto &c = m.comps[static_cast<size_t>(s.comp)];
+            std::vector<std::string> foreign;
+            for (size_t cj = 0; cj < m.comps.size(); ++cj) {
+                for (const auto &v : m.comps[cj].vars) {
+                    bool here = false;
+                    for (const auto &w : c.vars) {
+                        here = here || w.name == v.name;
+                    }
+                    if (static_cast<int>(cj) != s.comp && !here) {
+                        foreign.push_back(v.name);
+                    }
+                }
+            }
+            if (foreign.empty()) {
+                continue;
+            }
+            Loc l;
+            l.cls = siteClass(m, s);
+            l.rawXml = ciX(rng.pick(foreign));
+            l.what = "sub-expression replaced by " + l.rawXml + " (variable of another component)";
+            MathSite site = s;
+            l.ir = [site](IrModel &g) { *siteNode(g, site) = mkCi(kMarker); };
+            out.push_back(l);
+        }
+        return out;
+    };
+    cat.push_back(f);
+
+    struct Whole
+    {
+        const char *name;
+        std::vector<Rule> adm;
+        std::string xml;
+    };
+    static const std::vector<Whole> wholes = {
+        {"math:root-element-not-math", {Rule::MATH_ELEMENT}, "<apply xmlns=\"http://www.w3.org/1998/Math/MathML\"><eq/><ci>V</ci><ci>V</ci></apply>"},
+        {"math:root-element-wrong-namespace", {Rule::MATH_ELEMENT}, "<math xmlns=\"http://www.w3.org/1998/Math/MathML2\"><apply><eq/><ci>V</ci><ci>V</ci></apply></math>"},
+        {"math:root-element-no-namespace", {Rule::MATH_ELEMENT}, "<math><apply><eq/><ci>V</ci><ci>V</ci></apply></math>"},
+        {"math:not-well-formed", {Rule::XML}, "<math xmlns=\"http://www.w3.org/1998/Math/MathML\"><apply><eq/><ci>V</ci><ci>V</ci></math>"},
+        {"math:not-xml", {Rule::XML, Rule::MATH_ELEMENT}, "V = V + 1"}};
+    for (const auto &w : wholes) {
+        Fault g;
+        g.name = w.name;
+        g.adm = w.adm;
+        g.math = true;
+        g.tune = wantMath;
+        std::string xml = w.xml;
+        g.locs = [xml](const IrModel &m, Rng &rng) {
+            std::vector<Loc> out;
+            for (int ci : plainComps(m)) {
+                const auto &c = m.comps[static_cast<size_t>(ci)];
+                if (c.vars.empty()) {
+                    continue;
+                }
+                std::string x = xml;
+                replaceAll(x, "V", c.vars[rng.below(c.vars.size())].name);
+                std::string cname = c.name;
+                for (int mode = 0; mode < 3; ++mode) { // 0 replace component math, 1 append to it, 2 first reset's test/reset value
+                    if (mode == 1 && c.math.empty()) {
+                        continue;
+                    }
+                    if (mode == 2 && c.resets.empty()) {
+                        continue;
+                    }
+                    bool rv = rng.chance(0.5);
+                    size_t ri = mode == 2 ? rng.below(c.resets.size()) : 0;
+                    Loc l;
+                    l.cls = std::string(mode == 0 ? "component-math-replaced" : (mode == 1 ? "component-math-appended" : (rv ? "reset-value" : "reset-test-value"))) + "/" + compClass(m, ci);
+                    l.what = "math string := " + x + " (API)";
+                    l.text = false;
+                    l.api = [=](const ModelPtr &model) {
+                        for (const auto &comp : allComponents(model)) {
+                            if (comp->name() != cname || comp->isImport()) {
+                                continue;
+                            }
+                            if (mode == 0) {
+                                comp->setMath(x);
+                            } else if (mode == 1) {
+                                comp->appendMath(x);
+                            } else if (rv) {
+                                comp->reset(ri)->setResetValue(x);
+                            } else {
+                                comp->reset(ri)->setTestValue(x);
+                            }
+                        }
+                    };
+                    out.push_back(l);
+                }
+            }
+            return out;
+        };
+        cat.push_back(g);
+    }
+}
+
+} // namespace
+
+static std::vector<Fault> &catalogue()
+{
+    static std::vector<Fault> cat;
+    if (cat.empty()) {
+        addIdentifierFaults(cat);
+        addUniquenessFaults(cat);
+        addReferenceFaults(cat);
+        addEquivalenceFaults(cat);
+        addResetFaults(cat);
+        addImportFaults(cat);
+        addMathFaults(cat);
+        addMathSpecialFaults(cat);
+    }
+    return cat;
+}
+
+// ---------------------------------------------------------------- engine
+struct Verdict
+{
+    size_t issues = 0;
+    size_t errors = 0;
+    std::map<Rule, int> errorRules;
+    std::map<Rule, int> allRules;
+    std::string firstItemType;
+    Rule firstRule = Rule::UNDEFINED;
+    std::string summary;
+};
+
+// validate + cross-cutting monitors (C15 logger coherence, C12 purity)
+static Verdict validateMonitored(const ModelPtr &model, const std::string &replay, const std::string *dumpBefore = nullptr)
+{
+    std::string before = dumpBefore != nullptr ? *dumpBefore : dumpModel(model);
+    auto validator = Validator::create();
+    validator->validateModel(model);
+    stat("validations");
+    monitorLogger(*validator, "Validator::validateModel", replay);
+    std::string after = dumpModel(model);
+    if (after != before) {
+        viol("C12", "validator-mutated-model", firstDiff(before, after), replay);
+    }
+    Verdict v;
+    v.issues = validator->issueCount();
+    for (size_t i = 0; i < v.issues; ++i) {
+        auto is = validator->issue(i);
+        if (is == nullptr) {
+            continue;
+        }
+        if (i == 0) {
+            v.firstRule = is->referenceRule();
+            v.firstItemType = itemType(is);
+        }
+        v.allRules[is->referenceRule()]++;
+        if (is->level() == Issue::Level::ERROR) {
+            ++v.errors;
+            v.errorRules[is->referenceRule()]++;
+        }
+        seen("rule_cited", rn(is->referenceRule()));
+    }
+    v.summary = issueSummary(*validator, 10);
+    return v;
+}
+
+static void applyRawToApi(const ModelPtr &model, const std::string &raw)
+{
+    for (const auto &c : allComponents(model)) {
+        std::string s = c->math();
+        if (replaceAll(s, kMarkerXml, raw)) {
+            c->setMath(s);
+        }
+        for (size_t i = 0; i < c->resetCount(); ++i) {
+            auto r = c->reset(i);
+            s = r->testValue();
+            if (replaceAll(s, kMarkerXml, raw)) {
+                r->setTestValue(s);
+            }
+            s = r->resetValue();
+            if (replaceAll(s, kMarkerXml, raw)) {
+                r->setResetValue(s);
+            }
+        }
+    }
+}
+
+static ModelPtr parseStrict(const std::string &text, const std::string &replay, size_t &issues)
+{
+    auto p = Parser::create(true);
+    auto m = p->parseModel(text);
+    monitorLogger(*p, "Parser::parseModel", replay);
+    issues = p->issueCount();
+    return m;
+}
+
+// ---- reductions used to attribute a false rejection to a feature (each keeps the model valid by construction)
+struct Reduction
+{
+    const char *name;
+    std::function<bool(IrModel &)> apply;
+};
+
+static void dropConnections(IrModel &m)
+{
+    m.conns.clear();
+    for (auto &c : m.comps) {
+        if (c.import >= 0) {
+            c.vars.clear();
+        }
+    }
+}
+
+static const std::vector<Reduction> &reductions()
+{
+    static const std::vector<Reduction> r = {
+        {"shared-import-source-id", [](IrModel &m) {
+             bool any = false;
+             for (size_t i = 0; i < m.imports.size(); ++i) {
+                 if (importUsers(m, static_cast<int>(i)) >= 2 && !m.imports[i].id.empty()) {
+                     m.imports[i].id.clear();
+                     any = true;
+                 }
+             }
+             return any;
+         }},
+        {"import-source-id", [](IrModel &m) {
+             bool any = false;
+             for (auto &im : m.imports) {
+                 any = any || !im.id.empty();
+                 im.id.clear();
+             }
+             return any;
+         }},
+        {"ids", [](IrModel &m) {
+             for (auto &s : idSlots(m)) {
+                 s.ref(m).clear();
+             }
+             for (auto &im : m.imports) {
+                 im.id.clear();
+             }
+             return true;
+         }},
+        {"initial-value-by-variable", [](IrModel &m) {
+             bool any = false;
+             for (auto &c : m.comps) {
+                 for (auto &v : c.vars) {
+                     if (!v.init.empty() && (isalpha(static_cast<unsigned char>(v.init[0])) || v.init[0] == '_')) {
+                         v.init = "1";
+                         any = true;
+                     }
+                 }
+             }
+             return any;
+         }},
+        {"resets", [](IrModel &m) {
+             bool any = false;
+             for (auto &c : m.comps) {
+                 any = any || !c.resets.empty();
+                 c.resets.clear();
+             }
+             return any;
+         }},
+        {"component-math", [](IrModel &m) {
+             bool any = false;
+             for (auto &c : m.comps) {
+                 any = any || !c.math.empty();
+                 c.math.clear();
+             }
+             return any;
+         }},
+        {"connections", [](IrModel &m) {
+             bool any = !m.conns.empty();
+             dropConnections(m);
+             return any;
+         }},
+        {"imports", [](IrModel &m) {
+             bool any = false;
+             dropConnections(m);
+             for (auto &u : m.units) {
+                 any = any || u.import >= 0;
+                 u.import = -1;
+             }
+             for (auto &c : m.comps) {
+                 any = any || c.import >= 0;
+                 c.import = -1;
+             }
+             return any;
+         }},
+        {"encapsulation", [](IrModel &m) {
+             bool any = m.hasEncapsulation();
+             dropConnections(m);
+             for (auto &c : m.comps) {
+                 c.parent = -1;
+                 c.children.clear();
+                 c.encId.clear();
+             }
+             m.encId.clear();
+             return any;
+         }},
+        {"unit-prefix-exponent-multiplier", [](IrModel &m) {
+             bool any = false;
+             for (auto &u : m.units) {
+                 for (auto &k : u.units) {
+                     any = any || !k.prefix.empty() || k.hasExp || k.hasMult;
+                     k.prefix.clear();
+                     k.hasExp = false;
+                     k.hasMult = false;
+                 }
+             }
+             return any;
+         }}};
+    return r;
+}
+
+// (A): a valid-by-construction model must validate with zero issues.  `rebuild` turns a (reduced) IR into a model the same
+// way the rejected one was built.
+static bool checkAccepted(const IrModel &ir0, const ModelPtr &model, const std::string &path, const std::string &replay,
+                          const std::function<ModelPtr(const IrModel &)> &rebuild)
+{
+    Verdict v = validateMonitored(model, replay);
+    stat("acceptance_validations");
+    if (v.issues == 0) {
+        stat("valid_models_accepted");
+        return true;
+    }
+    stat("valid_models_rejected");
+    IrModel ir = deepCopy(ir0);
+    for (int round = 0; round < 6 && v.issues != 0; ++round) {
+        Rule r0 = v.firstRule;
+        int have = v.allRules[r0];
+        std::string cls;
+        for (const auto &red : reductions()) {
+            IrModel t = deepCopy(ir);
+            if (!red.apply(t)) {
+                continue;
+            }
+            ModelPtr tm = rebuild(t);
+            if (tm == nullptr) {
+                continue;
+            }
+            Verdict tv = validateMonitored(tm, replay);
+            if (tv.allRules[r0] < have) {
+                cls = red.name;
+                ir = t;
+                v = tv;
+                break;
+            }
+        }
+        if (cls.empty()) {
+            viol("C04", "false-rejection:" + rn(r0) + ":unattributed:" + v.firstItemType + ":" + path,
+                 "valid-by-construction model (" + path + ") rejected; no single feature removal clears the issue\n" + v.summary, replay);
+            return false;
+        }
+        viol("C04", "false-rejection:" + rn(r0) + ":" + cls,
+             "valid-by-construction model (" + path + ") rejected with " + rn(r0) + " on a " + v.firstItemType + "; the issue disappears when feature '" + cls + "' is removed\n" + v.summary, replay);
+    }
+    return false;
+}
+
+static GenOptions variedOptions(Rng &rng, std::string &desc)
+{
+    GenOptions g;
+    g.maxComponents = rng.range(1, 8);
+    g.maxVarsPerComponent = rng.range(1, 5);
+    g.maxUnits = rng.range(0, 8);
+    g.resets = rng.chance(0.7);
+    g.imports = rng.chance(0.6);
+    g.ids = rng.chance(0.7);
+    g.connections = rng.chance(0.8);
+    g.encapsulation = rng.chance(0.8);
+    g.scaledConnections = rng.chance(0.7);
+    g.initByVariable = rng.chance(0.7);
+    g.nonUnitExponentPrefix = rng.chance(0.7);
+    g.mathProbability = rng.pick(std::vector<double> {0.0, 0.3, 0.6, 0.9});
+    desc = std::string("resets=") + (g.resets ? "1" : "0") + " imports=" + (g.imports ? "1" : "0") + " ids=" + (g.ids ? "1" : "0") + " conns=" + (g.connections ? "1" : "0")
+           + " encaps=" + (g.encapsulation ? "1" : "0") + " scaled=" + (g.scaledConnections ? "1" : "0") + " initvar=" + (g.initByVariable ? "1" : "0") + " nonunitexp=" + (g.nonUnitExponentPrefix ? "1" : "0");
+    return g;
+}
+
+static void runAcceptance(Ctx &ctx)
+{
+    Rng &rng = ctx.rng;
+    std::string od;
+    GenOptions g = variedOptions(rng, od);
+    seen("gen_options", od);
+    IrModel ir = generateModel(rng, g);
+    std::string irDump = dumpIr(ir);
+    stage("acceptance-api");
+    ModelPtr api = buildApi(ir);
+    checkAccepted(ir, api, "api", "API-built from IR (" + od + "):\n" + irDump, [](const IrModel &t) { return buildApi(t); });
+    stage("acceptance-text");
+    Rng wr = rng; // same writer choices for reduced variants
+    std::string text = writeCellml2(ir, rng);
+    size_t pi = 0;
+    ModelPtr parsed = parseStrict(text, text, pi);
+    if (parsed == nullptr || pi != 0) {
+        stat("valid_text_rejected_by_parser"); // reported by C02's driver (generated-valid-model-rejected-by-parser)
+    } else {
+        checkAccepted(ir, parsed, "text", text, [wr](const IrModel &t) {
+            Rng w = wr;
+            size_t n = 0;
+            auto m = parseStrict(writeCellml2(t, w), "", n);
+            return n == 0 ? m : nullptr;
+        });
+    }
+    stat("acceptance_cases");
+    stat("features", ir.featureCount());
+    caseInfo("A:" + ir.structuralHash(), ir.featureCount() >= 2,
+             "acceptance: " + od + " units=" + std::to_string(ir.units.size()) + " comps=" + std::to_string(ir.comps.size()) + " conns=" + std::to_string(ir.conns.size()) + " imports=" + std::to_string(ir.imports.size()));
+}
+
+// ---- (B) one injected fault at one location, through the API and (when the strict parser is silent and faithful) through text
+struct Outcome
+{
+    int injected = 0;
+    int detected = 0;
+};
+
+static void judge(const Fault &f, const Loc &l, const Verdict &v, const std::string &path, const std::string &replay, Outcome &o)
+{
+    ++o.injected;
+    stat("faults_injected");
+    stat("inj:" + f.name);
+    stat("injected_via_" + path);
+    seen("fault_location", f.name + "@" + l.cls);
+    bool hit = false;
+    for (Rule r : f.adm) {
+        hit = hit || v.errorRules.count(r) != 0;
+    }
+    if (f.probe) {
+        seen("probe_outcome", f.name + ":" + (hit ? "reported-with-listed-rule" : (v.errors != 0 ? "reported-with-other-rule" : "not-reported")));
+        stat("probes");
+        return;
+    }
+    if (hit) {
+        ++o.detected;
+        stat("faults_detected");
+        stat("det:" + f.name);
+        return;
+    }
+    std::string adm;
+    for (Rule r : f.adm) {
+        adm += (adm.empty() ? "" : ",") + rn(r);
+    }
+    std::string head = "fault " + f.name + " at " + l.cls + " (" + path + "): " + l.what + "\nadmissible rules: " + adm + "\n";
+    if (v.errors == 0) {
+        viol("C04", "missed-violation:" + f.name + ":" + l.cls, head + "validator reported no error-level issue (" + std::to_string(v.issues) + " issues)\n" + v.summary, replay);
+    } else {
+        std::string cited;
+        for (const auto &kv : v.errorRules) {
+            cited += (cited.empty() ? "" : "+") + rn(kv.first);
+        }
+        viol("C04", "wrong-rule:" + f.name + ":" + cited, head + "errors reported, none citing an admissible rule:\n" + v.summary, replay);
+    }
+}
+
+static void injectAt(const Fault &f, const Loc &l, const IrModel &base, Rng &rng, Outcome &o)
+{
+    IrModel fi = deepCopy(base);
+    if (l.ir) {
+        l.ir(fi);
+    }
+    std::string head = "fault=" + f.name + " location=" + l.cls + "\n" + l.what + "\n";
+    stage("fault-api:" + f.name);
+    ModelPtr api = buildApi(fi);
+    if (!l.rawXml.empty()) {
+        applyRawToApi(api, l.rawXml);
+    }
+    if (l.api) {
+        l.api(api);
+    }
+    std::string apiDump = dumpModel(api);
+    Verdict va = validateMonitored(api, head + "API-built; canonical dump:\n" + apiDump, &apiDump);
+    judge(f, l, va, "api", head + "API-built; canonical dump:\n" + apiDump, o);
+    if (!l.text) {
+        stat("text_path_not_applicable");
+        return;
+    }
+    stage("fault-text:" + f.name);
+    std::string text = writeCellml2(fi, rng);
+    if (!l.rawXml.empty()) {
+        replaceAll(text, kMarkerXml, l.rawXml);
+    }
+    size_t pi = 0;
+    ModelPtr parsed = parseStrict(text, text, pi);
+    if (parsed == nullptr || pi != 0) {
+        stat("text_path_parser_reports_it");
+        seen("parser_reports_fault", f.name);
+        return;
+    }
+    std::string textDump = dumpModel(parsed);
+    if (textDump != apiDump) {
+        stat("text_path_parser_changed_model"); // the parser silently repaired / resolved the construct differently: not the same fault any more
+        seen("parser_changes_fault", f.name);
+        return;
+    }
+    Verdict vt = validateMonitored(parsed, head + text, &textDump);
+    judge(f, l, vt, "text", head + text, o);
+}
+
+static void stripSharedImportIds(IrModel &m)
+{
+    for (size_t i = 0; i < m.imports.size(); ++i) {
+        if (importUsers(m, static_cast<int>(i)) >= 2) {
+            m.imports[i].id.clear();
+        }
+    }
+}
+
+static std::vector<Loc> chooseLocs(std::vector<Loc> all, Rng &rng, size_t maxN)
+{
+    rng.shuffle(all);
+    std::vector<Loc> out;
+    std::set<std::string> classes;
+    for (const auto &l : all) {
+        if (out.size() < maxN && classes.insert(l.cls).second) {
+            out.push_back(l);
+        }
+    }
+    for (const auto &l : all) {
+        if (out.size() >= maxN) {
+            break;
+        }
+        bool dup = false;
+        for (const auto &k : out) {
+            dup = dup || (k.cls == l.cls && k.what == l.what);
+        }
+        if (!dup) {
+            out.push_back(l);
+        }
+    }
+    return out;
+}
+
+static void runFault(Ctx &ctx, size_t fi)
+{
+    Rng &rng = ctx.rng;
+    const Fault &f = catalogue()[fi];
+    // base model: the applicable candidate with the most location classes among a few, which must validate cleanly
+    IrModel best;
+    std::vector<Loc> bestLocs;
+    size_t bestClasses = 0;
+    int candidates = 0;
+    for (int tries = 0; tries < 120 && candidates < 6; ++tries) {
+        GenOptions g;
+        g.maxComponents = rng.range(2, 7);
+        g.mathProbability = 0.5;
+        if (f.tune) {
+            f.tune(g);
+        }
+        IrModel ir = generateModel(rng, g);
+        stripSharedImportIds(ir); // known false rejection (see acceptance part); keep bases clean
+        auto locs = f.locs(ir, rng);
+        if (locs.empty()) {
+            continue;
+        }
+        std::set<std::string> cls;
+        for (const auto &l : locs) {
+            cls.insert(l.cls);
+        }
+        ++candidates;
+        if (cls.size() > bestClasses) {
+            // must be a clean base
+            stage("base-validation");
+            ModelPtr api = buildApi(ir);
+            Verdict v = validateMonitored(api, "base model for fault " + f.name + ":\n" + dumpIr(ir));
+            stat("base_validations");
+            if (v.issues != 0) {
+                stat("base_not_clean");
+                --candidates;
+                continue;
+            }
+            best = ir;
+            bestLocs = locs;
+            bestClasses = cls.size();
+        }
+    }
+    if (bestLocs.empty()) {
+        stat("fault_case_without_applicable_base");
+        seen("no_base_for", f.name);
+        caseInfo("F:none:" + f.name, false, "fault " + f.name + ": no applicable base model found");
+        return;
+    }
+    size_t maxN = ctx.thorough() ? 14 : 3;
+    auto locs = chooseLocs(bestLocs, rng, maxN);
+    Outcome o;
+    std::string classes;
+    for (const auto &l : locs) {
+        injectAt(f, l, best, rng, o);
+        classes += (classes.empty() ? "" : ", ") + l.cls;
+    }
+    stat("fault_cases");
+    stat("locations_available", static_cast<int64_t>(bestLocs.size()));
+    caseInfo("F:" + f.name + ":" + best.structuralHash() + ":" + hex64(fnv1a(classes)), o.injected > 0 && best.featureCount() >= 2,
+             "fault " + f.name + " on a model with units=" + std::to_string(best.units.size()) + " comps=" + std::to_string(best.comps.size()) + " conns=" + std::to_string(best.conns.size()) + " at [" + classes + "]: injected "
+                 + std::to_string(o.injected) + " detected " + std::to_string(o.detected) + (f.probe ? " (probe, not judged)" : ""));
+}
+
+// ---------------------------------------------------------------- special scenarios
+// S1: one <import> element (one ImportSource object) with an id and two imported children
+static void runSharedImportWitness(Ctx &ctx, int variant)
+{
+    IrModel ir;
+    ir.name = "m";
+    IrImport im;
+    im.url = "lib.cellml";
+    im.id = "imp1";
+    ir.imports.push_back(im);
+    auto addU = [&](const std::string &n) {
+        IrUnits u;
+        u.name = n;
+        u.import = 0;
+        u.importRef = "ref_" + n;
+        ir.units.push_back(u);
+    };
+    auto addC = [&](const std::string &n) {
+        IrComponent c;
+        c.name = n;
+        c.import = 0;
+        c.importRef = "ref_" + n;
+        ir.comps.push_back(c);
+    };
+    if (variant == 0) {
+        addU("u");
+        addC("c");
+    } else if (variant == 1) {
+        addC("c1");
+        addC("c2");
+    } else {
+        addU("u1");
+        addU("u2");
+    }
+    seen("scenario", "shared-import-witness:" + std::to_string(variant));
+    checkAccepted(ir, buildApi(ir), "api", "API: one ImportSource (url lib.cellml, id imp1) set on two imported entities:\n" + dumpIr(ir), [](const IrModel &t) { return buildApi(t); });
+    WriteStyle st;
+    st.pretty = true;
+    std::string text = writeCellml2(ir, st);
+    size_t pi = 0;
+    ModelPtr parsed = parseStrict(text, text, pi);
+    if (parsed != nullptr && pi == 0) {
+        checkAccepted(ir, parsed, "text", text, [st](const IrModel &t) {
+            size_t n = 0;
+            auto m = parseStrict(writeCellml2(t, st), "", n);
+            return n == 0 ? m : nullptr;
+        });
+    } else {
+        stat("valid_text_rejected_by_parser");
+    }
+    (void)ctx;
+    caseInfo("S1:" + std::to_string(variant), true, "minimal witness: one import element with id and two imported children, variant " + std::to_string(variant));
+}
+
+// S2: cellml: prefix used inside reset math but declared only on an ancestor element
+static void runAncestorPrefix(Ctx &ctx)
+{
+    Rng &rng = ctx.rng;
+    IrModel ir;
+    bool found = false;
+    for (int tries = 0; tries < 60 && !found; ++tries) {
+        GenOptions g;
+        g.resets = true;
+        g.imports = rng.chance(0.3);
+        ir = generateModel(rng, g);
+        stripSharedImportIds(ir);
+        for (const auto &c : ir.comps) {
+            found = found || !c.resets.empty();
+        }
+    }
+    if (!found) {
+        caseInfo("S2:none", false, "no model with resets");
+        return;
+    }
+    WriteStyle st;
+    st.prefixAll = rng.chance(0.3);
+    st.cellmlPrefixOnRoot = true;
+    st.pretty = rng.chance(0.7);
+    std::string text = writeCellml2(ir, st);
+    size_t pi = 0;
+    ModelPtr ref = parseStrict(text, text, pi);
+    if (ref == nullptr || pi != 0) {
+        stat("valid_text_rejected_by_parser");
+        caseInfo("S2:parser", false);
+        return;
+    }
+    Verdict v0 = validateMonitored(ref, text);
+    if (v0.issues != 0) {
+        stat("ancestor_prefix_reference_not_clean"); // reported by the acceptance part
+        caseInfo("S2:ref", false);
+        return;
+    }
+    // remove the declaration from every <math> (the root element keeps it)
+    size_t rootEnd = text.find('>', text.find("model"));
+    std::string head = text.substr(0, rootEnd + 1);
+    std::string tail = text.substr(rootEnd + 1);
+    bool removed = replaceAll(tail, " xmlns:cellml=\"http://www.cellml.org/cellml/2.0#\"", "");
+    std::string text2 = head + tail;
+    bool usesPrefix = false;
+    const std::string open = st.prefixAll ? "<cellml:reset " : "<reset ";
+    const std::string close = st.prefixAll ? "</cellml:reset>" : "</reset>";
+    for (size_t p = text2.find(open); p != std::string::npos && !usesPrefix; p = text2.find(open, p + 1)) {
+        size_t e = text2.find(close, p);
+        usesPrefix = e != std::string::npos && text2.substr(p, e - p).find("cellml:units") != std::string::npos;
+    }
+    seen("scenario", std::string("ancestor-prefix:") + (st.prefixAll ? "prefixed-elements" : "default-namespace") + (usesPrefix ? ":cn-in-reset" : ":no-cn-in-reset"));
+    ModelPtr m2 = parseStrict(text2, text2, pi);
+    if (m2 == nullptr || pi != 0) {
+        stat("ancestor_prefix_parser_complains");
+        caseInfo("S2:parser2", false);
+        return;
+    }
+    Verdict v = validateMonitored(m2, text2);
+    stat("ancestor_prefix_models");
+    stat("acceptance_validations");
+    if (v.issues != 0) {
+        stat("valid_models_rejected");
+        viol("C04", "false-rejection:reset-math-ancestor-prefix",
+             "the same document validates with zero issues when xmlns:cellml is repeated on the reset's <math>; with the declaration only on the <model> element the validator reports " + rn(v.firstRule) + ":\n" + v.summary, text2);
+    } else {
+        stat("valid_models_accepted");
+    }
+    caseInfo("S2:" + ir.structuralHash(), removed && usesPrefix, "reset math with ancestor-declared cellml prefix; uses prefix in reset: " + std::string(usesPrefix ? "yes" : "no"));
+}
+
+// S3: imports resolved through ImportSource::setModel: acceptance, then faults on / inside the imported items
+// `keep` receives the library models (ImportSource only holds a weak reference)
+static ModelPtr buildResolved(const IrModel &ir, int mod, std::string &cls, std::vector<ModelPtr> &keep)
+{
+    ModelPtr model = buildApi(ir);
+    std::map<ImportSourcePtr, ModelPtr> libs;
+    auto libFor = [&](const ImportSourcePtr &s) {
+        auto it = libs.find(s);
+        if (it == libs.end()) {
+            auto lib = Model::create("library_" + std::to_string(libs.size()));
+            s->setModel(lib);
+            keep.push_back(lib);
+            it = libs.emplace(s, lib).first;
+        }
+        return it->second;
+    };
+    bool didUnits = false;
+    bool didComp = false;
+    for (size_t i = 0; i < model->unitsCount(); ++i) {
+        auto u = model->units(i);
+        if (!u->isImport()) {
+            continue;
+        }
+        auto lib = libFor(u->importSource());
+        auto lu = Units::create(u->importReference());
+        lu->addUnit("second", "milli", 1.0, 1.0);
+        bool target = !didUnits;
+        if (mod == 1 && target) {
+            didUnits = true;
+            cls = "imported-units";
+            continue; // target missing
+        }
+        if (mod == 2 && target) {
+            lu->addUnit("c04_no_such_units");
+            didUnits = true;
+            cls = "imported-units";
+        }
+        if (mod == 3 && target) {
+            lu->addUnit(u->importReference());
+            didUnits = true;
+            cls = "imported-units";
+        }
+        if (lib->units(u->importReference()) == nullptr) {
+            lib->addUnits(lu);
+        }
+    }
+    for (const auto &c : allComponents(model)) {
+        if (!c->isImport()) {
+            continue;
+        }
+        auto lib = libFor(c->importSource());
+        auto lc = Component::create(c->importReference());
+        auto v = Variable::create("x");
+        v->setUnits("second");
+        lc->addVariable(v);
+        lc->setMath("<math xmlns=\"http://www.w3.org/1998/Math/MathML\" xmlns:cellml=\"http://www.cellml.org/cellml/2.0#\"><apply><eq/><ci>x</ci><cn cellml:units=\"second\">1</cn></apply></math>");
+        bool target = !didComp;
+        std::string k = "imported-component/" + std::string(c->parent() != nullptr && std::dynamic_pointer_cast<Component>(c->parent()) != nullptr ? "encapsulated" : "top");
+        if (mod == 4 && target) {
+            didComp = true;
+            cls = k;
+            continue;
+        }
+        if (mod == 5 && target) {
+            lc->addVariable(Variable::create("1bad"));
+            lc->variable(1)->setUnits("second");
+            didComp = true;
+            cls = k;
+        }
+        if (mod == 6 && target) {
+            v->setUnits("c04_no_such_units");
+            didComp = true;
+            cls = k;
+        }
+        if (mod == 7 && target) {
+            lc->setMath("<math xmlns=\"http://www.w3.org/1998/Math/MathML\" xmlns:cellml=\"http://www.cellml.org/cellml/2.0#\"><apply><eq/><ci>x</ci><ci>c04_no_such_variable</ci></apply></math>");
+            didComp = true;
+            cls = k;
+        }
+        if (lib->component(c->importReference()) == nullptr) {
+            lib->addComponent(lc);
+        }
+    }
+    return model;
+}
+
+static void runResolvedImports(Ctx &ctx)
+{
+    Rng &rng = ctx.rng;
+    IrModel ir;
+    bool found = false;
+    for (int tries = 0; tries < 80 && !found; ++tries) {
+        GenOptions g;
+        g.imports = true;
+        ir = generateModel(rng, g);
+        stripSharedImportIds(ir);
+        bool u = false;
+        bool c = false;
+        for (const auto &x : ir.units) {
+            u = u || x.import >= 0;
+        }
+        for (const auto &x : ir.comps) {
+            c = c || x.import >= 0;
+        }
+        found = (u && c) || (tries > 40 && (u || c));
+    }
+    if (!found) {
+        caseInfo("S3:none", false, "no model with imports");
+        return;
+    }
+    std::string cls;
+    stage("resolved-imports-acceptance");
+    std::vector<ModelPtr> keep;
+    ModelPtr ok = buildResolved(ir, 0, cls, keep);
+    std::string replay = "API-built, every import resolved with ImportSource::setModel to a library model holding the referenced units/component:\n" + dumpIr(ir);
+    Verdict v = validateMonitored(ok, replay);
+    stat("acceptance_validations");
+    stat("resolved_import_models");
+    if (v.issues != 0) {
+        stat("valid_models_rejected");
+        viol("C04", "false-rejection:" + rn(v.firstRule) + ":resolved-import", "model with resolved imports rejected:\n" + v.summary, replay);
+        caseInfo("S3:rejected", false);
+        return;
+    }
+    stat("valid_models_accepted");
+    static const std::vector<std::pair<std::string, std::vector<Rule>>> mods = {
+        {"", {}},
+        {"imported:units-target-missing", {Rule::IMPORT_UNITS_UNITS_REFERENCE_VALUE_TARGET, Rule::IMPORT_UNITS_UNITS_REFERENCE}},
+        {"imported:units-unit-ref-missing", {Rule::UNIT_UNITS_REFERENCE}},
+        {"imported:units-self-cycle", {Rule::UNIT_UNITS_CIRCULAR_REFERENCE}},
+        {"imported:component-target-missing", {Rule::IMPORT_COMPONENT_COMPONENT_REFERENCE_TARGET, Rule::IMPORT_COMPONENT_COMPONENT_REFERENCE}},
+        {"imported:component-variable-name-illegal", {Rule::VARIABLE_NAME_VALUE, Rule::DATA_REPR_IDENTIFIER_BEGIN_EURO_NUM}},
+        {"imported:component-variable-units-missing", {Rule::VARIABLE_UNITS_VALUE}},
+        {"imported:component-ci-missing-variable", {Rule::MATH_CI_VARIABLE_REFERENCE}}};
+    Outcome o;
+    for (size_t mod = 1; mod < mods.size(); ++mod) {
+        cls.clear();
+        stage("resolved-imports-fault:" + mods[mod].first);
+        std::vector<ModelPtr> keepBad;
+        ModelPtr bad = buildResolved(ir, static_cast<int>(mod), cls, keepBad);
+        if (cls.empty()) {
+            continue; // no imported item of that kind in this model
+        }
+        Fault f;
+        f.name = mods[mod].first;
+        f.adm = mods[mod].second;
+        Loc l;
+        l.cls = cls;
+        l.what = f.name + " in the library model behind an import (API)";
+        std::string d = dumpModel(bad);
+        std::string rp = "fault=" + f.name + " location=" + cls + "\nimporting model (library models are built by the driver, see buildResolved):\n" + d;
+        Verdict vb = validateMonitored(bad, rp, &d);
+        judge(f, l, vb, "api", rp, o);
+    }
+    caseInfo("S3:" + ir.structuralHash(), o.injected > 0, "resolved imports: accepted; faults behind imports injected " + std::to_string(o.injected) + " detected " + std::to_string(o.detected));
+}
+
+// S4: a units cycle reachable from the units of two connected variables (kept apart: the validator is known to overflow the stack here)
+static void runCycleConnected(Ctx &ctx)
+{
+    Rng &rng = ctx.rng;
+    for (int tries = 0; tries < 200; ++tries) {
+        GenOptions g;
+        g.connections = true;
+        g.maxUnits = 7;
+        g.imports = false;
+        IrModel ir = generateModel(rng, g);
+        for (const auto &cn : ir.conns) {
+            for (const auto &mp : cn.maps) {
+                auto *v1 = ir.findVar(cn.c1, mp.v1);
+                auto *v2 = ir.findVar(cn.c2, mp.v2);
+                if (v1 == nullptr || v2 == nullptr) {
+                    continue;
+                }
+                int ui = ir.findUnits(v1->units);
+                if (ui < 0 || ir.findUnits(v2->units) < 0) {
+                    continue;
+                }
+                ModelPtr base = buildApi(ir);
+                if (validateMonitored(base, "base").issues != 0) {
+                    continue;
+                }
+                IrModel fi = deepCopy(ir);
+                IrUnit k;
+                k.ref = fi.units[static_cast<size_t>(ui)].name;
+                fi.units[static_cast<size_t>(ui)].units.push_back(k);
+                ModelPtr api = buildApi(fi);
+                std::string d = dumpModel(api);
+                std::string rp = "fault=units:cycle-connected: units '" + k.ref + "' (used by connected variable '" + v1->name + "') references itself\n" + d;
+                stage("units-cycle-connected:validate");
+                Verdict v = validateMonitored(api, rp, &d);
+                Fault f;
+                f.name = "units:cycle-connected";
+                f.adm = {Rule::UNIT_UNITS_CIRCULAR_REFERENCE};
+                Loc l;
+                l.cls = "self-reference/used-by-connected-variable";
+                l.what = "units used by a connected variable references itself";
+                Outcome o;
+                judge(f, l, v, "api", rp, o);
+                caseInfo("S4:" + ir.structuralHash(), true, "cyclic units used by connected variables: detected " + std::to_string(o.detected));
+                return;
+            }
+        }
+    }
+    caseInfo("S4:none", false, "no suitable model");
+}
+
+// ---------------------------------------------------------------- case plan
+struct Plan
+{
+    int64_t nValid = 0;
+    int64_t nWitness = 3;
+    int64_t nPrefix = 0;
+    int64_t nResolved = 0;
+    int64_t nCycle = 0;
+    std::vector<uint32_t> faultOf;
+    int64_t total() const { return nValid + nWitness + nPrefix + nResolved + nCycle + static_cast<int64_t>(faultOf.size()); }
+};
+
+static Plan makePlan(const std::string &tier)
+{
+    Plan p;
+    bool th = tier == "thorough";
+    p.nValid = th ? 3000 : 300;
+    p.nPrefix = th ? 150 : 12;
+    p.nResolved = th ? 150 : 12;
+    p.nCycle = th ? 4 : 2;
+    int reps = th ? 200 : 3;
+    int mathReps = th ? 60 : 3;
+    const auto &cat = catalogue();
+    for (int r = 0; r < reps; ++r) {
+        for (size_t f = 0; f < cat.size(); ++f) {
+            if (r < (cat[f].math ? mathReps : reps)) {
+                p.faultOf.push_back(static_cast<uint32_t>(f));
+            }
+        }
+    }
+    return p;
+}
+
+int64_t vh_case_count(const std::string &tier, uint64_t)
+{
+    return makePlan(tier).total();
+}
+
+void vh_run_case(Ctx &ctx)
+{
+    static std::map<std::string, Plan> plans;
+    if (plans.count(ctx.tier) == 0) {
+        plans[ctx.tier] = makePlan(ctx.tier);
+    }
+    const Plan &p = plans[ctx.tier];
+    int64_t i = ctx.index;
+    // special scenarios first (cheap, and --limit runs reach them), then acceptance, then faults
+    if (i < p.nWitness) {
+        runSharedImportWitness(ctx, static_cast<int>(i));
+        return;
+    }
+    i -= p.nWitness;
+    if (i < p.nPrefix) {
+        runAncestorPrefix(ctx);
+        return;
+    }
+    i -= p.nPrefix;
+    if (i < p.nResolved) {
+        runResolvedImports(ctx);
+        return;
+    }
+    i -= p.nResolved;
+    if (i < p.nCycle) {
+        runCycleConnected(ctx);
+        return;
+    }
+    i -= p.nCycle;
+    if (i < p.nValid) {
+        runAcceptance(ctx);
+        return;
+    }
+    i -= p.nValid;
+    runFault(ctx, p.faultOf[static_cast<size_t>(i)]);
+}
